@@ -255,5 +255,9 @@ func runC02(r *Run) {
 	}
 	// ---- DoQ: one stream per query; the reply may be complete before (or although) the FIN could be sent
 	doqScenarios(r, "C02", r.N(60, 600))
-	r.Finish("transports {TraditionalDnsConn datagram / stream, PipelineTransport datagram / stream, ReuseConnTransport} x arrival {inside Write (Write returns after the reader consumed it), inside Write followed by EOF, after the caller parked, after parked followed at once by EOF, the same two with EOF returned by the very Read call that returns the last bytes of the reply (stream connections), 2..7 concurrent callers each inside Write, a reply 0.7 s after the query while the reader's deadline update was held back (idle timeout 0.3 s)} x repetitions; every case is non-trivial; each is replayed on the model as the schedule it enforces")
+	// ---- queries queued on a connection that is still dialing; the reply comes later than one dial timeout (c02lazy.go)
+	lazyScenarios02(r, r.N(10, 80), &connID)
+	// ---- DoH: the reply is an HTTP body that arrives in pieces (c02doh.go)
+	dohScenarios02(r)
+	r.Finish("transports {TraditionalDnsConn datagram / stream, PipelineTransport datagram / stream, ReuseConnTransport} x arrival {inside Write (Write returns after the reader consumed it), inside Write followed by EOF, after the caller parked, after parked followed at once by EOF, the same two with EOF returned by the very Read call that returns the last bytes of the reply (stream connections), 2..7 concurrent callers each inside Write, a reply 0.7 s after the query while the reader's deadline update was held back (idle timeout 0.3 s)} x repetitions; DoQ streams; {PipelineTransport, lazy connection over datagram / stream / DoQ} x 1..4 callers queued while the connection is dialing (+ one on the fast path), DialTimeout option 150..250 ms, reply later than dial time + DialTimeout and seconds before the caller's deadline; DoH upstream over a scripted body (one piece, single bytes, header | rest, all-but-last | last, random; with / without Content-Length; EOF with the last piece or alone; 29..65535 bytes) and over net/http against a loopback server (HTTP/1.1, h2) that flushes between pieces, 1..3 concurrent callers; every case is non-trivial; each is replayed on the model as the schedule it enforces (DoH: the pieces the Read calls returned)")
 }
